@@ -81,10 +81,16 @@ def run(ctx):
     ctx.trusted += ["independent float evaluation of the Gnielinski expression (log, real powers) supplies gn; its monotonicity in Re is "
                     "proved over R for Pr >= 1 and Re >= 1000 (C18_gnielinski.v) and validated on a 400 x 60 grid for Pr in [0.1, 1)",
                     "JAX evaluation of polynomials and jnp.where/maximum"]
+    from harness import translators
+    ctx.trusted += ["translator harness/translators/filmlaws.py (Python ast -> Gallina expressions; jnp.maximum/minimum/where/polyval read as Qmax/Qmin/if/Horner)"]
+    translators.import_all()
+    ctx.gen("FilmLaws", translators.REGISTRY["FilmLaws"])
     ctx.prove("C18")
+    ctx.prove("C18_laws")
     ctx.prove("C18_gnielinski")
     if ctx.tier == "thorough":
         ctx.coqchk("C18")
+        ctx.coqchk("C18_laws")
         ctx.coqchk("C18_gnielinski")
     rng = ctx.rng
     variants = run_impl("c18_film", {"list": True})["variants"]
